@@ -447,6 +447,11 @@ pub mod inner {
             assert!(r <= w, "range right ({r}) > width ({w})");
             assert!(b <= h, "range bottom ({b}) > height ({h})");
 
+            if b == t {
+                // A view of zero height contains no elements. Returning early
+                // also permits t == h, where (l, t) lies past the data.
+                return ((r - l, 0), 0..0);
+            }
             // (l, t) is now guaranteed to be in bounds
             let start = self.to_index(l, t);
             // Slice end is the end of the last row
